@@ -87,6 +87,10 @@ namespace {
         }
 
         void reportErr(const ErrorMessage &msg) override {
+#ifdef DANMAR_CPPCHECK_VERIF
+            if (msg.severity != Severity::internal)
+                verifFault(REPORT_ERROR, false);
+#endif
             writeToPipe(REPORT_ERROR, msg.serialize());
         }
 
@@ -117,8 +121,49 @@ namespace {
         }
 
         void writeEnd(const std::string& str) const {
+#ifdef DANMAR_CPPCHECK_VERIF
+            verifFault(CHILD_END, true);
+#endif
             writeToPipe(CHILD_END, str);
         }
+
+#ifdef DANMAR_CPPCHECK_VERIF
+        // verification hook (fault injection): VERIF_CHILD_FAULT=<file-substring>:<k>:<sig|exit|midmsg>
+        // The worker analysing a matching file dies when it is about to send its (k+1)-th finding
+        // (severity != internal), or before its CHILD_END record if it has at most k findings:
+        // sig = raise SIGSEGV, exit = _exit(3), midmsg = write the type byte and half of the length, then _exit(3).
+        void verifArm(const std::string& file) {
+            const char* e = std::getenv("VERIF_CHILD_FAULT");
+            if (!e)
+                return;
+            const std::string spec(e);
+            const std::string::size_type p2 = spec.rfind(':');
+            const std::string::size_type p1 = (p2 == std::string::npos || p2 == 0) ? std::string::npos : spec.rfind(':', p2 - 1);
+            if (p1 == std::string::npos)
+                return;
+            if (file.find(spec.substr(0, p1)) == std::string::npos)
+                return;
+            mVerifAfter = std::atoi(spec.substr(p1 + 1, p2 - p1 - 1).c_str());
+            mVerifMode = spec.substr(p2 + 1);
+            mVerifArmed = true;
+        }
+
+        void verifFault(PipeSignal type, bool atEnd) const {
+            if (!mVerifArmed)
+                return;
+            if (!atEnd && mVerifSent++ < mVerifAfter)
+                return;
+            if (mVerifMode == "sig")
+                std::raise(SIGSEGV);
+            else if (mVerifMode == "exit")
+                _exit(3);
+            else if (mVerifMode == "midmsg") {
+                const char half[3] = {static_cast<char>(type), 8, 0};
+                (void)!write(mWpipe, half, 3);
+                _exit(3);
+            }
+        }
+#endif
 
     private:
         static std::string suppressionToString(const SuppressionList::Suppression &suppr)
@@ -173,6 +218,12 @@ namespace {
 
         const int mWpipe;
         const bool mDebug;
+#ifdef DANMAR_CPPCHECK_VERIF
+        bool mVerifArmed = false;
+        int mVerifAfter = 0;
+        mutable int mVerifSent = 0;
+        std::string mVerifMode;
+#endif
     };
 }
 
@@ -392,6 +443,9 @@ unsigned int ProcessExecutor::check()
                     timerResults.reset(new TimerResults);
 
                 PipeWriter pipewriter(pipes[1], mSettings.debugipc);
+#ifdef DANMAR_CPPCHECK_VERIF
+                pipewriter.verifArm(iFileSettings != mFileSettings.end() ? iFileSettings->filename() : iFile->path());
+#endif
                 CppCheck fileChecker(mSettings, supprs, pipewriter, timerResults.get(), false, mExecuteCommand);
                 unsigned int resultOfCheck = 0;
 
